@@ -60,7 +60,13 @@ def run(ctx, replay=None):
                           {"scenario": j, "observed": o})
             continue
         # the averaged array has one entry per element; the scripted phases give both elements the same mobility
-        if any(not close(v, Fr(*e["avg"][0]), rtol=1e-9, atol=1e-290) for v in o["avg"]):
+        # <<1, 0>> is the specification's infinity (lower rules when every remaining phase has an undefined mobility: 1/sum(f/inf))
+        w0 = e["avg"][0]
+        if w0[1] == 0:
+            mismatch = any(v != float("inf") for v in o["avg"])
+        else:
+            mismatch = any(not close(v, Fr(*w0), rtol=1e-9, atol=1e-290) for v in o["avg"])
+        if mismatch:
             ctx.violation("homog-post:%s:value" % mode, "post-process %s(%s), stable phases %s (database order %s): observed %s, by-name semantics %s" %
                           (mode, arg, sc["names"], D.ALLPHASES, o["avg"], e["avg"]), {"scenario": j, "observed": o, "expected": e})
 
